@@ -47,6 +47,10 @@ def thunks(db):
     return out
 
 
+META_EXTRA = 'SRC (copying an inplace_function never relocates its const source).'
+META = (META[0] + " " + META_EXTRA, META[1])
+
+
 def run(chk, tier):
     db = D.load("checks")
     n = 0
